@@ -168,6 +168,8 @@ def run_tlc(specdir, module, cfg, name=None, timeout=900, workers=1, heap="3g", 
           [os.path.join(specdir, module + ".tla")]
     res = TlcResult()
     t0 = time.time()
+    # the thorough tier and busy machines: bin/check scales every TLC time limit (a timeout is "no verdict", exit 2, never a violation)
+    timeout = timeout * float(os.environ.get("VERIF_TIMEOUT_SCALE", "1"))
     try:
         r = subprocess.run(cmd, cwd=specdir, capture_output=True, text=True, timeout=timeout)
         out = r.stdout + r.stderr
